@@ -226,12 +226,11 @@ func (t *covTracer) CaptureState(env *ethvm.EVM, pc uint64, op ethvm.OpCode, gas
 		}
 	case ethvm.SLOAD:
 		t.counts["op/sload"]++
-		if len(st) >= 1 {
-			if _, warm := env.StateDB.SlotInAccessList(scope.Contract.Address(), ethcmn.BigToHash(top(0))); warm {
-				t.counts["sload/warm"]++
-			} else {
-				t.counts["sload/cold"]++
-			}
+		// the access list is already updated when the tracer is called: tell by the price
+		if cost >= 2100 {
+			t.counts["sload/cold"]++
+		} else {
+			t.counts["sload/warm"]++
 		}
 	case ethvm.CALL, ethvm.CALLCODE, ethvm.DELEGATECALL, ethvm.STATICCALL:
 		t.counts["op/"+lower(op.String())]++
@@ -298,9 +297,6 @@ func (t *covTracer) CaptureState(env *ethvm.EVM, pc uint64, op ethvm.OpCode, gas
 
 func (t *covTracer) CaptureFault(env *ethvm.EVM, pc uint64, op ethvm.OpCode, gas, cost uint64, scope *ethvm.ScopeContext, depth int, err error) {
 	t.counts["fault/any"]++
-	if err == ethvm.ErrOutOfGas {
-		t.counts["fault/out-of-gas"]++
-	}
 }
 
 func (t *covTracer) CaptureEnd(output []byte, gasUsed uint64, tm time.Duration, err error) {}
